@@ -40,16 +40,52 @@ Proof.
   destruct rd, td, ir, t, tu, sk, ct, tv, h, u; cbn; intro H; try discriminate; split; reflexivity.
 Qed.
 
+(* the validity period: Good exactly from notBefore to notAfter, both included; the three
+   classes are exhaustive and exclusive *)
+Theorem time_valid_iff nb na now : time_status nb na now = Good <-> nb <= now <= na.
+Proof.
+  unfold time_status, time_class. destruct (Z.ltb_spec now nb); [split; [discriminate|lia]|].
+  destruct (Z.ltb_spec na now); [split; [discriminate|lia]|]. split; [lia|reflexivity].
+Qed.
+Theorem time_class_spec nb na now :
+  match time_class nb na now with
+  | TimeNotYet => now < nb
+  | TimeExpired => nb <= now /\ na < now
+  | TimeValid => nb <= now <= na
+  end.
+Proof.
+  unfold time_class. destruct (Z.ltb_spec now nb); [assumption|]. destruct (Z.ltb_spec na now); lia.
+Qed.
+
+Lemma oracle_step_holds s : oracle_step s (run_step s) = true.
+Proof.
+  destruct s as [c|nb na now]; [apply oracle1_holds|].
+  cbn [oracle_step run_step]. unfold time_status, time_class.
+  destruct (Z.ltb_spec now nb); cbn.
+  - destruct (Z.leb_spec nb now); [lia|reflexivity].
+  - destruct (Z.ltb_spec na now); cbn.
+    + destruct (Z.leb_spec nb now); destruct (Z.leb_spec now na); try lia; reflexivity.
+    + destruct (Z.leb_spec nb now); destruct (Z.leb_spec now na); try lia; reflexivity.
+Qed.
+Lemma run_step_width s : length (run_step s) = width s.
+Proof. destruct s; reflexivity. Qed.
+
 Theorem oracle_holds : forall c : case, oracle c (run c) = true.
 Proof.
   induction c as [|s c IH]; [reflexivity|].
-  pose proof (oracle1_holds s) as H1. unfold run. cbn [flat_map]. unfold run1 at 1. unfold run1 in H1.
-  cbn [app oracle]. rewrite H1. exact IH.
+  unfold run. cbn [flat_map oracle]. fold (run c).
+  rewrite <- (run_step_width s).
+  rewrite firstn_app, Nat.sub_diag, firstn_all, firstn_O, app_nil_r.
+  rewrite skipn_app, Nat.sub_diag, skipn_all, skipn_O. cbn [app].
+  rewrite oracle_step_holds. exact IH.
 Qed.
 
 Example accept_example :
   spec_accept (mk_case true true false TSame false false true Basic256Sha256 2048 TimeValid NMatch NMatch) = true.
 Proof. reflexivity. Qed.
 Example reject_example :
-  run [mk_case true true false TAbsent false false true Basic256Sha256 2048 TimeValid NMatch NMatch] = [BadCertificateUntrusted; 1; 0].
+  run [SVal (mk_case true true false TAbsent false false true Basic256Sha256 2048 TimeValid NMatch NMatch)] = [BadCertificateUntrusted; 1; 0].
+Proof. reflexivity. Qed.
+Example time_examples :
+  map (time_status 1000 9000) [999; 1000; 1001; 8999; 9000; 9001; 9000 + 86399000] = [4; 0; 0; 0; 0; 4; 4].
 Proof. reflexivity. Qed.
